@@ -69,6 +69,9 @@ type C07Case struct {
 	DefaultRec  bool    `json:"default_recover,omitempty"`
 	ErrChunks   []Chunk `json:"err_chunks,omitempty"` // written by the service-error handler
 	RecChunks   []Chunk `json:"rec_chunks,omitempty"` // written by the recover handler
+	// FlipAfter: the container switch had the opposite value while services and handlers were
+	// registered and got its final value afterwards (the setting in force at request time counts).
+	FlipAfter bool `json:"flip_after,omitempty"`
 }
 
 var aePool = []string{"gzip", "deflate", "gzip, deflate", "deflate, gzip", "deflate;q=1, gzip", "gzip;q=0.5", "br", "identity", "x-gzip", "", "*", "GZIP", "br, gzip", "zip", "defl"}
@@ -121,6 +124,7 @@ func genC07(t *rapid.T) C07Case {
 	}
 	c.ErrChunks = genChunks(t, "err", 2)
 	c.RecChunks = genChunks(t, "rec", 2)
+	c.FlipAfter = rapid.IntRange(0, 3).Draw(t, "flipafter") == 0
 	return c
 }
 
@@ -195,7 +199,11 @@ func checkC07(c C07Case) (vs []*Violation) {
 	}
 	plain := http.HandlerFunc(func(w http.ResponseWriter, r *http.Request) { run.write(w, c.Handler) })
 
-	ct := newContainer(c.ContainerOn)
+	first := c.ContainerOn
+	if c.FlipAfter {
+		first = !first
+	}
+	ct := newContainer(first)
 	path := "/x"
 	switch c.Target {
 	case "route":
@@ -215,6 +223,7 @@ func checkC07(c C07Case) (vs []*Violation) {
 		ct.Handle("/inner/", inner)
 		path = "/inner/x"
 	}
+	ct.EnableContentEncoding(c.ContainerOn) // the value in force when the request arrives
 	req := model.ReqSpec{Method: "GET", Path: path}
 	if c.HasAE {
 		req.Headers = append(req.Headers, model.H{K: "Accept-Encoding", V: c.AcceptEnc})
